@@ -538,5 +538,115 @@ theorem expand_minHyp (isFin : S → Bool) (syms : List α) (h : DFA.ExpandHyp s
 
 end expand
 
+/-! ### `NFA.from_dfa` -/
+
+theorem alookup_some_map (g : β → γ) (r : List (κ × β)) (a : κ) :
+    alookup (some a) (r.map fun e => (some e.1, g e.2)) = (alookup a r).map g := by
+  induction r with
+  | nil => rfl
+  | cons x t ih =>
+    obtain ⟨k', v⟩ := x
+    simp only [List.map_cons, alookup_cons, ih, Option.some.injEq]
+    split <;> simp
+
+theorem alookup_none_map (g : β → γ) (r : List (κ × β)) :
+    alookup (none : Option κ) (r.map fun e => (some e.1, g e.2)) = none := by
+  induction r with
+  | nil => rfl
+  | cons x t ih =>
+    obtain ⟨k', v⟩ := x
+    simp only [List.map_cons, alookup_cons, ih]
+    simp
+
+theorem ofDFA_row (d : DFA σ α) (q : σ) :
+    (NFA.ofDFA d).row q = (d.row q).map fun e => (some e.1, [e.2]) := by
+  unfold NFA.row NFA.row? DFA.row DFA.row?
+  show (alookup q (d.trans.map fun kv => (kv.1, kv.2.map fun e => (some e.1, [e.2])))).getD [] = _
+  rw [alookup_map_val]
+  cases alookup q d.trans <;> rfl
+
+theorem ofDFA_targets_none (d : DFA σ α) (q : σ) : (NFA.ofDFA d).targets q none = [] := by
+  unfold NFA.targets
+  rw [ofDFA_row, alookup_none_map (fun t => [t])]; rfl
+
+theorem ofDFA_targets_some (d : DFA σ α) (q : σ) (a : α) :
+    (NFA.ofDFA d).targets q (some a) = (d.step? (some q) a).toList := by
+  unfold NFA.targets
+  rw [ofDFA_row, alookup_some_map (fun t => [t])]
+  simp only [DFA.step?]
+  cases alookup a (d.row q) <;> rfl
+
+/-- No λ-moves: the closure of a state is the state itself. -/
+theorem ofDFA_closure (d : DFA σ α) (q : σ) : (NFA.ofDFA d).closure q = [q] :=
+  closure_eq_singleton _ (ofDFA_targets_none d q)
+
+theorem ofDFA_mem_nextStates (d : DFA σ α) (s : Option σ) (a : α) (p : σ) :
+    p ∈ (NFA.ofDFA d).nextStates s.toList a ↔ p ∈ (d.step? s a).toList := by
+  rw [NFA.mem_nextStates]
+  simp only [ofDFA_targets_some, ofDFA_closure, List.mem_singleton, Option.mem_toList]
+  cases s with
+  | none => simp [DFA.step?]
+  | some q =>
+    constructor
+    · rintro ⟨q', hq', t, ht, rfl⟩
+      cases hq'; exact ht
+    · intro h; exact ⟨q, rfl, p, h, rfl⟩
+
+/-- **Run of the embedded DFA**: the set of current states is the singleton of the DFA's
+state, or empty when the DFA run has stopped. -/
+theorem ofDFA_run (d : DFA σ α) (w : List α) : ∀ (s : Option σ) (p : σ),
+    p ∈ (NFA.ofDFA d).runFrom s.toList w ↔ d.run s w = some p := by
+  induction w with
+  | nil => intro s p; simp [Option.mem_toList]
+  | cons a w ih =>
+    intro s p
+    rw [runFrom_cons, DFA.run_cons, ← ih (d.step? s a) p]
+    exact runFrom_congr _ w (ofDFA_mem_nextStates d s a) p
+
+theorem ofDFA_accepts (d : DFA σ α) (w : List α) : (NFA.ofDFA d).accepts w = d.accepts w := by
+  unfold NFA.accepts DFA.accepts
+  rw [ofDFA_closure]
+  rw [Bool.eq_iff_iff, anyFinal_iff]
+  have hrun := ofDFA_run d w (some d.init)
+  simp only [Option.toList_some] at hrun
+  show (∃ q ∈ (NFA.ofDFA d).runFrom [d.init] w, q ∈ d.finals) ↔ _
+  cases hr : d.run (some d.init) w with
+  | none =>
+    simp only [DFA.isFinal, Bool.false_eq_true, iff_false]
+    rintro ⟨q, hq, _⟩
+    rw [hrun, hr] at hq; cases hq
+  | some q =>
+    simp only [DFA.isFinal, decide_eq_true_eq]
+    constructor
+    · rintro ⟨q', hq', hf⟩
+      rw [hrun, hr] at hq'; cases hq'; exact hf
+    · intro hf; exact ⟨q, (hrun q).mpr hr, hf⟩
+
+theorem ofDFA_wf {d : DFA σ α} (wf : d.WF) : (NFA.ofDFA d).WF := by
+  have htr : ∀ kv ∈ (NFA.ofDFA d).trans, ∃ r, (kv.1, r) ∈ d.trans ∧
+      kv.2 = r.map fun e => (some e.1, [e.2]) := by
+    intro kv hkv
+    simp only [NFA.ofDFA, List.mem_map] at hkv
+    obtain ⟨⟨k, r⟩, hr, rfl⟩ := hkv
+    exact ⟨r, hr, rfl⟩
+  refine ⟨?_, ?_, wf.initOk, Or.inl ?_, wf.finalsOk⟩
+  · intro kv hkv a ha
+    obtain ⟨r, hr, hkv2⟩ := htr kv hkv
+    rw [hkv2] at ha
+    simp only [akeys, List.map_map, List.mem_map, Function.comp] at ha
+    obtain ⟨e, he, hea⟩ := ha
+    cases hea
+    exact wf.symsOk (kv.1, r) hr e.1 (List.mem_map.mpr ⟨e, he, rfl⟩)
+  · intro kv hkv ts hts q hq
+    obtain ⟨r, hr, hkv2⟩ := htr kv hkv
+    rw [hkv2] at hts
+    simp only [avals, List.map_map, List.mem_map, Function.comp] at hts
+    obtain ⟨e, he, rfl⟩ := hts
+    simp only [List.mem_singleton] at hq; subst hq
+    exact wf.tgtOk (kv.1, r) hr e.2 (List.mem_map.mpr ⟨e, he, rfl⟩)
+  · show d.init ∈ akeys (d.trans.map fun kv => (kv.1, kv.2.map fun e => (some e.1, [e.2])))
+    rw [akeys_map_val]
+    exact wf.rows _ wf.initOk
+
 end C07
 end AV
